@@ -4,6 +4,6 @@ use parity_scale_codec::{Compact, Decode, Encode};
 pub enum T {
 	#[codec(skip)] V0 = 1,
 	V1 = 256,
-	#[codec(skip)] #[codec(index = 256)] V2,
+	#[codec(index = 256)] #[codec(skip)] V2,
 }
 fn main() {}
